@@ -62,6 +62,8 @@ def run(ctx):
     tl.check_error_discipline(ctx, P)
     tl.check_reader_wrapping(ctx, P)
     tl.check_workers_no_swallow(ctx, P)
+    # a check the command line switches off by default rejects nothing: CLI defaults = API defaults
+    tl.cli_wiring(ctx, P)
     tl.check_consumers(ctx, P)
     tl.headers_worker(ctx, P)
     tl.shape_worker(ctx, P)
